@@ -407,16 +407,43 @@ impl QueryRouter {
         }
     }
 
-    /// Determines if a query is a mutation or not.
+    /// Determines if a query must run on the primary: it modifies data
+    /// (INSERT/UPDATE bodies, data-modifying CTEs, SELECT INTO) or takes row
+    /// locks (FOR UPDATE/SHARE), at any nesting depth.
     fn is_mutation_query(q: &sqlparser::ast::Query) -> bool {
-        use sqlparser::ast::*;
+        use sqlparser::ast::{Select, Visit, Visitor};
+        use std::ops::ControlFlow;
 
-        match q.body.as_ref() {
-            SetExpr::Insert(_) => true,
-            SetExpr::Update(_) => true,
-            SetExpr::Query(q) => Self::is_mutation_query(q),
-            _ => false,
+        fn body_writes(body: &SetExpr) -> bool {
+            match body {
+                SetExpr::Insert(_) | SetExpr::Update(_) => true,
+                SetExpr::Select(select) => {
+                    let Select { into, .. } = select.as_ref();
+                    into.is_some()
+                }
+                SetExpr::SetOperation { left, right, .. } => {
+                    body_writes(left) || body_writes(right)
+                }
+                // Nested queries are visited on their own.
+                _ => false,
+            }
         }
+
+        struct WriteFinder;
+
+        impl Visitor for WriteFinder {
+            type Break = ();
+
+            fn pre_visit_query(&mut self, q: &sqlparser::ast::Query) -> ControlFlow<()> {
+                if !q.locks.is_empty() || body_writes(q.body.as_ref()) {
+                    ControlFlow::Break(())
+                } else {
+                    ControlFlow::Continue(())
+                }
+            }
+        }
+
+        q.visit(&mut WriteFinder).is_break()
     }
 
     fn database_activity_cache(&self) -> Cache<String, DatabaseActivityState> {
@@ -511,6 +538,22 @@ impl QueryRouter {
                         }
                     }
 
+                    // Decide the role before anything below can bail out.
+                    let has_locks = !query.locks.is_empty();
+                    let has_mutation = Self::is_mutation_query(query);
+
+                    if has_locks || has_mutation {
+                        // The rest of the message must not move it off the primary.
+                        visited_write_statement = true;
+                        self.active_role = Some(Role::Primary);
+                    } else if !visited_write_statement {
+                        // If we already visited a write statement, we should be going to the primary.
+                        self.active_role = match self.primary_reads_enabled() {
+                            false => Some(Role::Replica), // If primary should not be receiving reads, use a replica.
+                            true => None,                 // Any server role is fine in this case.
+                        }
+                    }
+
                     match &self.pool_settings.automatic_sharding_key {
                         Some(_) => {
                             // TODO: if we have multiple queries in the same message,
@@ -524,24 +567,15 @@ impl QueryRouter {
 
                         None => (),
                     };
-
-                    let has_locks = !query.locks.is_empty();
-                    let has_mutation = Self::is_mutation_query(query);
-
-                    if has_locks || has_mutation {
-                        self.active_role = Some(Role::Primary);
-                    } else if !visited_write_statement {
-                        // If we already visited a write statement, we should be going to the primary.
-                        self.active_role = match self.primary_reads_enabled() {
-                            false => Some(Role::Replica), // If primary should not be receiving reads, use a replica.
-                            true => None,                 // Any server role is fine in this case.
-                        }
-                    }
                 }
 
                 // Likely a write
                 _ => {
                     debug!("Write statement found, going to primary");
+
+                    // Decide the role before anything below can bail out.
+                    visited_write_statement = true;
+                    self.active_role = Some(Role::Primary);
 
                     if self.pool_settings.db_activity_based_routing {
                         // add all of the query tables to the mutation cache
@@ -560,8 +594,6 @@ impl QueryRouter {
 
                         None => (),
                     };
-                    visited_write_statement = true;
-                    self.active_role = Some(Role::Primary);
                 }
             };
         }
